@@ -66,11 +66,14 @@ def _observe(interp, b: Built, err) -> dict:
 def run_sync(b: Built, steps: List[dict]) -> List[Tuple[dict, list]]:
     """Runs the steps on a fresh traced SyncInterpreter; returns (post, out) per step."""
     b.ctl.reset()
+    rt.CURRENT["ctl"] = b.ctl
     interp = attach(TracedSync(b.machine, b.ctl), b.ctl, out_tag)
     res = []
+    b.ctl.fuel = b.defn["fuel"]
     for st in steps:
         b.ctl.gv = dict(st["gv"])
         b.ctl.log = []
+        b.ctl.events = 0
         err: list = []
         try:
             if st["op"] == "start":
@@ -84,7 +87,11 @@ def run_sync(b: Built, steps: List[dict]) -> List[Tuple[dict, list]]:
                 interp.stop()
         except Exception as e:  # the step raised out of the public call
             err = [type(e).__name__]
+        except rt.Diverged:
+            err = ["Diverged"]
         res.append((_observe(interp, b, err), b.ctl.take()))
+        if err == ["Diverged"]:
+            break
     try:
         interp.stop()
     except Exception:
@@ -111,9 +118,11 @@ async def _run_async(b: Built, steps: List[dict]):
     rt.CURRENT["ctl"] = b.ctl
     interp = attach(TracedAsync(b.machine, b.ctl), b.ctl, out_tag)
     res = []
+    b.ctl.fuel = b.defn["fuel"]
     for st in steps:
         b.ctl.gv = dict(st["gv"])
         b.ctl.log = []
+        b.ctl.events = 0
         err: list = []
         try:
             if st["op"] == "start":
@@ -130,7 +139,12 @@ async def _run_async(b: Built, steps: List[dict]):
         ok = await _quiesce(interp)
         if not ok:
             err = ["NoQuiescence"]
+        t = interp._event_loop_task
+        if t is not None and t.done() and not t.cancelled() and isinstance(t.exception(), rt.Diverged):
+            err = ["Diverged"]
         res.append((_observe(interp, b, err), b.ctl.take()))
+        if err == ["Diverged"]:
+            break
     try:
         await interp.stop()
     except Exception:
@@ -191,6 +205,9 @@ class Mismatch:
 
 def compare(edge: Edge, post: dict, out: list, engine: str) -> Optional[str]:
     want = norm_state(edge.to)
+    if want["err"] == ["Diverged"] or post["err"] == ["Diverged"]:
+        # non-termination (cut off at the same event count on both sides): only the verdict compares
+        return None if want["err"] == post["err"] else "state.err"
     if engine == "pure":
         want = dict(want, hist={})
         post = dict(post, hist={})
